@@ -1,9 +1,9 @@
 #!/bin/bash
-# usage: try_mutant.sh <patch.diff> <prop> [tier]  -- applies the patch to /repo, runs the check, undoes it
+# usage: try_mutant.sh <patch.diff> <prop> [tier]
+# Applies the patch to a scratch copy of /repo's working tree (so that concurrently running checks are not
+# disturbed) and runs the check against that copy.
 P=$1; PROP=$2; TIER=${3:-quick}
-cd /repo || exit 2
-if [ -n "$(git status --porcelain --untracked-files=no)" ]; then echo "/repo not clean"; exit 2; fi
-git apply "$P" 2>/dev/null || patch -p1 -s < "$P" || { echo "patch does not apply"; git checkout -- .; exit 2; }
-cd /verif && ./check "$PROP" --tier "$TIER" 2>&1 | grep -E "VIOLATION|KNOWN|oracle:|broken:|differ|exit" | cut -c1-400
-git -C /repo checkout -- .
-find /repo -name '*.orig' -o -name '*.rej' | xargs -r rm -f
+S=/tmp/mutrun_$$; mkdir -p $S; cp -r /repo/ladim $S/ladim
+( cd $S && (git apply --include='ladim/*' "$P" 2>/dev/null || patch -p1 -s < "$P") ) || { echo "patch does not apply"; rm -rf $S; exit 2; }
+cd /verif && LADIM_REPO=$S ./check "$PROP" --tier "$TIER" 2>&1 | grep -E "ladim from|VIOLATION|KNOWN|oracle:|broken:|differ|exit" | cut -c1-400
+rm -rf $S
